@@ -494,7 +494,7 @@ var (
 	reComplexExpr = regexp.MustCompile(`[0-9.]i\b|complex|real\(|imag\(`)
 	reTiny        = regexp.MustCompile(`1e-400|4\.9e-324|5e-324|0x1p-1074`)
 	reFloatLit    = regexp.MustCompile(`[0-9]\.[0-9]|[0-9]e[0-9+-]|0x[0-9a-f.]+p`)
-	reHugeFloat   = regexp.MustCompile(`1e308|1\.7976931348623157e308|1e100|3\.4028234663852886e38|3\.5e38|1e19|340282366920938463463374607431768211455`)
+	reHugeFloat   = regexp.MustCompile(`1e308|1\.8e308|1\.7976931348623157e308|1e100|3\.4028234663852886e38|3\.5e38|1e19|340282366920938463463374607431768211455`)
 	reIntOp       = regexp.MustCompile(`operator (%|&|\||\^|&\^) not defined on|must be integer|operator (<|<=|>|>=) not defined on`)
 )
 
@@ -540,6 +540,10 @@ func classify(c Case, msg string) string {
 	case strings.Contains(msg, "Go's exact value") && reHugeFloat.MatchString(c.Expr) && strings.ContainsAny(c.Expr, "+-"):
 		return "C02-untyped-float-precision"
 	case nonDyadic(msg):
+		return "C02-untyped-float-precision"
+	case strings.Contains(msg, "(type untyped float); `print(c == ") || strings.Contains(msg, "(type untyped float); `print(c*2 - "):
+		// the observations are checked in order: float64(c), the sign and c == 0 were right,
+		// only the comparison with the exact value fails
 		return "C02-untyped-float-precision"
 	case reTiny.MatchString(c.Expr) || tinyValue(c):
 		return "C02-tiny-float-constants"
